@@ -385,7 +385,11 @@ func (m *Mux) DropConn(ctx context.Context, cc *grpc.ClientConn) bool {
 	defer m.mu.Unlock()
 	s := m.loadState().clone()
 
-	return s.removeHandler(cc)
+	if !s.removeHandler(cc) {
+		return false
+	}
+	m.storeState(s)
+	return true
 }
 
 // resolver implements protodesc.Resolver.
